@@ -53,9 +53,15 @@ def run(ctx):
         fl_f = [Fm.EXTMATCH, Fm.NEGATE, Fm.SPLIT, Fm.BRACE, Fm.DOTMATCH, Fm.MINUSNEGATE, Fm.NEGATEALL, Fm.IGNORECASE, Fm.RAWCHARS, Fm.FORCEWIN]
         fl_g = [Gm.EXTGLOB, Gm.NEGATE, Gm.SPLIT, Gm.BRACE, Gm.DOTGLOB, Gm.GLOBSTAR, Gm.MATCHBASE, Gm.NODIR, Gm.NEGATEALL, Gm.MARK,
                 Gm.GLOBSTARLONG, Gm.FOLLOW, Gm.NODOTDIR, Gm.SCANDOTDIR, Gm.RAWCHARS, Gm.GLOBTILDE, Gm.NOUNIQUE, Gm.FORCEWIN]
+        # RAWCHARS escapes, complete / incomplete / undecodable (regression: `\Uffffffff` raised OverflowError)
+        rawpats = ['\\Uffffffff', '\\U00110000', '\\U0010ffff', '\\U80000000', '\\ud800', '\\N{', '\\N{nope}', '\\N{DIGIT ONE}', '\\x4', '\\x', '\\u12',
+                   '\\777', '\\1234', '\\U0000004', 'a\\x5b', '[\\x5d]', '\\\\Uffffffff', '\\\\\\Uffffffff', '@(\\Uffffffff)', '\\xff', '\\400']
+        for _ in range(60 if ctx.quick else 600):
+            rawpats.append(''.join(rng.choice(['\\', 'U', 'u', 'x', 'N', '{', '}', 'f', '8', '0', '1', 'a', '/', '*']) for _ in range(rng.randint(2, 14))))
+        pats = rawpats + pats
         old = os.getcwd()
         os.chdir(tmp)
-        for p in pats:
+        for ip, p in enumerate(pats):
             fv = 0
             for x in fl_f:
                 if rng.random() < 0.35:
@@ -64,6 +70,9 @@ def run(ctx):
             for x in fl_g:
                 if rng.random() < 0.3:
                     gv |= x
+            if ip < len(rawpats):
+                fv |= Fm.RAWCHARS
+                gv |= Gm.RAWCHARS
             isb = rng.random() < 0.25 and all(ord(c) < 256 for c in p)
             P = p.encode('latin-1') if isb else p
             nm = b'a' if isb else 'a'
